@@ -26,7 +26,9 @@ COMPONENTS = {"real": ["Hedger.compute_hedge / compute_portfolio / compute_loss 
                        "bisection-based quadratic CVaR and OCE, torch autograd"],
               "stub": ["central finite differences along seeded unit directions (reference)", "RecModel with live tensors (graph monitor)"]}
 ASSUMPTIONS = ["float64 only; central differences along random unit directions with h = 1e-6*(1+|theta|), threshold 1e-4 relative + 1e-9 "
-               "absolute (3e-3 relative for quadratic CVaR, whose value comes from a bisection of precision 1e-6); a mismatch must persist for h/10 and 10h (a kink of a piecewise-linear criterion inside the stencil does not)",
+               "absolute (for quadratic CVaR 3e-3 relative plus the envelope term 2*lam*1e-6*mean|dPL/dtheta|: its inner minimiser comes from a bisection of "
+               "precision 1e-6 and is held constant by autograd); a mismatch must persist for h/10, 10h, h/100 and h/1000 (a kink of a piecewise-linear "
+               "criterion or of the cost term inside the stencil does not)",
                "smooth activations only (a ReLU kink is not a generic parameter point)"]
 PROBES = ["evaluation_only_call_raised", "fd_frozen", "fd_replay", "prev_hedge_in_loss", "cost_positive", "H2", "criterion_parameter", "after_fit", "no_graph_price",
           "no_graph_loss", "ambient_enable_grad", "ambient_no_grad", "graph_monitor", "fd_retry_other_h", "listed_hedge", "n_times_ge2", "eval_mode", "fd_truncation_dominated"]
@@ -130,7 +132,11 @@ def _fd_check(h, loss_fn, seed, site, cfg, stats, seq, rtol=1e-4, envelope=None)
         v = v / v.norm().clamp(min=1e-300)
         ana = float((g * v).sum())
         bad = []
-        for mult in (1.0, 0.1, 10.0):
+        # piecewise-smooth losses (|trade| in the cost term, the worst-path selection of expected shortfall) have kinks; a base
+        # point may lie within h of one, where the central quotient averages two slopes. The quotient is therefore retried with
+        # smaller steps (all parameters are float64 here): a right gradient is met once h is below the distance to the kink, a
+        # wrong one is not met at any h.
+        for mult in (1.0, 0.1, 10.0, 0.01, 0.001):
             hstep = 1e-6 * (1.0 + float(theta0.norm())) * mult
             with torch.no_grad():
                 _set_flat(ps, theta0 + hstep * v)
